@@ -44,7 +44,7 @@ ModeOfEnum(v) == CASE v = 0 -> RFC822 [] v = 1 -> RFC5321 [] v = 2 -> RFC5322 []
 EnumOfMode(m) == CASE m = RFC822 -> 0 [] m = RFC5321 -> 1 [] m = RFC5322 -> 2 [] m = RFC6531 -> 3
 
 \* message family keyword of an error code (src/eav.c errors[]): what the text must talk about
-Family(e) == CASE e = 0 -> "none" [] e = 1 -> "rfc" [] e = 2 -> "idn" [] e = 3 -> "email"
+MsgFamily(e) == CASE e = 0 -> "none" [] e = 1 -> "rfc" [] e = 2 -> "idn" [] e = 3 -> "email"
               [] e \in LpartCodes -> "local-part" [] e \in DomainCodes -> "domain"
               [] e \in IpCodes -> "ip-addr" [] e \in TldCodes -> "tld" [] OTHER -> "?"
 =============================================================================
